@@ -24,6 +24,8 @@ func main() {
 		extract(os.Args[2], os.Args[3])
 	case "corr":
 		corr.Main(spec(), os.Args[2:])
+	case "firstuse":
+		firstUseChild(os.Args[2:])
 	default:
 		os.Exit(2)
 	}
